@@ -2,8 +2,8 @@
 C08 — Operand expressions are evaluated as exact integer arithmetic.
 
 * literals: a binary / octal / decimal / hexadecimal digit string has its
-  positional value; `-d…` is the negation (`C08_literal`, `C08_negative` by the
-  definition of the `negative_decimal` arm of `parseExpr`);
+  positional value; `-d…` is the negation (`C08_literal`; the negative arm is the
+  `negative_decimal` case of `parseExpr`, covered at text level by `C08_text`);
 * precedence: the climber's parse of `term (op term)*` is the stratified grammar
   E → T ((+|−) T)*, T → F ((×|÷) F)*: × ÷ bind tighter, equal precedence
   associates to the left; parentheses group because a parenthesised term is a
@@ -11,7 +11,8 @@ C08 — Operand expressions are evaluated as exact integer arithmetic.
 * evaluation is unbounded `Int` arithmetic with division truncating toward zero
   (`C08_arithmetic`);
 * `selector` / `topic` are the first 4 / all 32 bytes of Keccak-256 (`parseExpr`
-  calls `Keccak.keccak256`, checked against published vectors below);
+  calls `Keccak.keccak256`; `C08_keccak_vectors`: kernel-evaluated published vectors —
+  the hash of the empty string and the ERC-20 `transfer(address,uint256)` selector);
 * the assembled immediate is exactly that value: `Props/C02.lean`
   (`emit_op_exact`);
 * `C08_text`: the TEXT of an operand — any flat sequence `term (blanks op blanks
@@ -72,5 +73,13 @@ theorem C08_text_stratified (t : TTerm) (rest : TRest) :
     (TSeq.mk t rest).expr = stratified t.expr rest.list := by
   simp only [TSeq.expr]
   exact climb_eq_stratified _ _
+
+/-- the executable Keccak-256 definition on published vectors: Keccak-256("") and the first four bytes of
+Keccak-256("transfer(address,uint256)") = a9059cbb (kernel evaluation; not a proof against FIPS-202 text) -/
+theorem C08_keccak_vectors :
+    Keccak.keccak256 [] = [0xc5,0xd2,0x46,0x01,0x86,0xf7,0x23,0x3c,0x92,0x7e,0x7d,0xb2,0xdc,0xc7,0x03,0xc0,0xe5,0x00,0xb6,0x53,
+                           0xca,0x82,0x27,0x3b,0x7b,0xfa,0xd8,0x04,0x5d,0x85,0xa4,0x70] ∧
+    (Keccak.keccak256 [116,114,97,110,115,102,101,114,40,97,100,100,114,101,115,115,44,117,105,110,116,50,53,54,41]).take 4
+      = [0xa9,0x05,0x9c,0xbb] := by decide +kernel
 
 end EtkVerif.C08
